@@ -961,7 +961,7 @@ export class ProcGenWrapper {
   // set slot
   // (not used any more, leaving for compatibilities)
   s = (elem: Element, v: string) => {
-    elem.slot = v
+    elem.slot = v === undefined ? '' : v // an undefined slot binding means "no slot", as on creation
     this.tryCallPropertyChangeListener(elem, 'slot', v)
   }
 
